@@ -257,6 +257,10 @@ def object_case(c):
         coeffs = np.array(obj._spline.coeffs, dtype=float).copy()
         vPts = obj._points - cc * dt
         g = f.copy()
+        if t % 4 == 1:
+            # the caller's line may be a strided view (every second cell of a buffer)
+            g = np.full(2 * n, np.nan)[::2]
+            g[...] = f
         obj.step(g, dt, cc, r)
         feq = [float(IF.f_eq(r, float(v), const.CN0, const.kN0, const.deltaRN0, const.rp, const.CTi, const.kTi, const.deltaRTi))
                for v in vPts]
